@@ -1158,6 +1158,16 @@ def compose(*cmaps):
         return _compose_cmaps(*[_as_coordinate_map(cmap) for cmap in cmaps])
 
 
+def _checked_order(order, ndim):
+    """ `order` as a permutation of ``range(ndim)``; negative indices count from the end
+    """
+    order = [int(i) + ndim if i < 0 else int(i) for i in order]
+    if sorted(order) != list(range(ndim)):
+        raise ValueError('order should be a permutation of the %d axis indices'
+                         % ndim)
+    return order
+
+
 def reordered_domain(mapping, order=None):
     """ New coordmap with the coordinates of function_domain reordered
 
@@ -1194,6 +1204,7 @@ def reordered_domain(mapping, order=None):
         order = list(range(ndim))[::-1]
     elif type(order[0]) == str:
         order = [mapping.function_domain.index(s) for s in order]
+    order = _checked_order(order, ndim)
 
     newaxes = [mapping.function_domain.coord_names[i] for i in order]
     newincoords = CoordinateSystem(newaxes,
@@ -1502,6 +1513,7 @@ def reordered_range(mapping, order=None):
         order = list(range(ndim))[::-1]
     elif type(order[0]) == str:
         order = [mapping.function_range.index(s) for s in order]
+    order = _checked_order(order, ndim)
 
     newaxes = [mapping.function_range.coord_names[i] for i in order]
     newoutcoords = CoordinateSystem(newaxes, mapping.function_range.name,
